@@ -149,8 +149,10 @@ def parse_colour(desc, depth, pal256, pal88):
             status = "ok"
             r, g, b = (int(c, 16) * 17 for c in body)  # '#rgb' is '#rrggbb' (HTML convention)
             numbers = pal.nearest_cube(r, g, b)
-        else:
-            status, v = _number(body, 16, 0, 0xFFF, 3, 3)
+        # else: not a colour.  A '#' name is '#' and exactly 3 or 6 ASCII hex digits, nothing else: text that only
+        # Python's int() leniency would read as a number ('#0_0', '#+12', '#ff\n', '# ff', '#٣٣٣') is an unknown
+        # colour name and must be rejected.  (First formulation: "lenient, either way"; the owner ruled such '#'
+        # text a defect -- known finding 8aac5af, urwid's _is_hex -- so the reference is strict here.)
     elif desc.startswith("#") and len(desc) == 7:
         body = desc[1:]
         if all(c in HEX for c in body):
@@ -162,8 +164,7 @@ def parse_colour(desc, depth, pal256, pal88):
             # ('#rrggbb' -> '#rgb') and then takes the nearest cube entry.  This is the reading checked
             # here; the stricter "nearest to the 8-bit value" is a separate check (nearest_cube_8bit).
             numbers = pal.nearest_cube((r >> 4) * 17, (g >> 4) * 17, (b >> 4) * 17)
-        else:
-            status, v = _number(body, 16, 0, 0xFFFFFF, 6, 6)
+        # else: not a colour (strict, as for '#rgb' above)
     if status == "invalid":
         return Colour("invalid", why="not a colour descriptor")
     if depth == 2**24 and numbers:
